@@ -16,7 +16,7 @@ func TestWorld(t *testing.T) {
 	hc.Main(t, &hc.World{
 		Name:         "W-conn",
 		Run:          run,
-		PreemptMeans: []int{0, 3, 12, 50, 300},
+		PreemptMeans: []int{0, 2, 3, 6, 12, 30, 100},
 		MaxSteps:     40_000_000,
 		MaxSimTime:   3 * time.Hour,
 	})
